@@ -1381,10 +1381,12 @@ class Scene:
 
         If a filter is provided, only those events are accepted.
         """
-        return max((
+        # The scene starts at t=0, so events lying entirely before that do not produce a negative
+        # duration (which scenes.image could not store either).
+        return max(0.0, max((
             event.end_time if event.has_end_time else event.start_time
             for event in self.iter_events(type_filter)
-        ), default=0.0)
+        ), default=0.0))
 
     def used_sounds(self) -> Iterator[str]:
         """Yield sounds used by events."""
